@@ -216,3 +216,169 @@ class Pair:
         """ERROR(call) to the caller."""
         self.A.send([ERROR, CALL, self.call_req[idx], dict(details or {}), uri] + list(tail))
         self.A.recv()
+
+
+PROC_MID = "com.c18.mid"
+PROC_BACKEND = "com.c18.backend"
+PROC_BACKEND_NATIVE = "com.c18.backend_native"
+
+
+class Chain:
+    """FRONT caller -> MID callee whose endpoint calls the BACKEND callee and lets the error propagate; three real
+    sessions on one world, the stub routes both hops (CALL->INVOCATION, ERROR(invocation)->ERROR(call))."""
+
+    def __init__(self, cfg):
+        self.cfg = cfg
+        self.world = make_world()
+        cls = session_class()
+        self.peers = {}
+        for name, sid in (("front", 7001), ("mid", 7002), ("backend", 7003)):
+            rp = RouterPeer(lambda: cls(), transport=cfg["transport_" + name], serializer=cfg["ser_" + name], world=self.world)
+            rp.join(sid)
+            rp.session.c18_ue_raises = bool(cfg.get("ue_raises"))
+            self.peers[name] = rp
+        self.F, self.M, self.B = self.peers["front"], self.peers["mid"], self.peers["backend"]
+        self.f, self.m, self.b = self.F.session, self.M.session, self.B.session
+        self.m.traceback_app = bool(cfg.get("tb_mid"))
+        self.b.traceback_app = bool(cfg.get("tb_backend"))
+        self.excs, self.modes, self.pending = {}, {}, {}
+        self.outcomes = {}
+        self.front_req, self.mid_inv, self.mid_req, self.backend_inv = {}, {}, {}, {}
+        self.strays = []
+        self.regs = {}
+        self._ids = 2000
+        self.torn = False
+        self._register()
+
+    def next_id(self):
+        self._ids += 1
+        return self._ids
+
+    def _reg(self, rp, fn, proc):
+        o = Outcome(rp.session.register(fn, proc))
+        m = [x for x in rp.recv() if x[0] == REGISTER]
+        rid = self.next_id()
+        rp.send([REGISTERED, m[-1][1], rid])
+        assert o.results and o.results[0][0] == "ok", o.results
+        self.regs[proc] = rid
+
+    def _register(self):
+        ch = self
+
+        def backend(idx):
+            if ch.modes[idx] == "future":
+                f = txaio.create_future()
+                ch.pending[idx] = f
+                return f
+            raise ch.excs[idx]
+
+        def mid_plain(idx, style):
+            return ch.m.call(PROC_BACKEND_NATIVE if ch.modes[idx] == "native" else PROC_BACKEND, idx)
+
+        if txaio.using_twisted:
+            from twisted.internet.defer import inlineCallbacks, returnValue, succeed
+
+            @inlineCallbacks
+            def backend_native(idx):
+                yield succeed(None)
+                raise ch.excs[idx]
+
+            @inlineCallbacks
+            def mid_await(idx, style):
+                res = yield ch.m.call(PROC_BACKEND_NATIVE if ch.modes[idx] == "native" else PROC_BACKEND, idx)
+                returnValue(res)
+        else:
+            import asyncio
+
+            async def backend_native(idx):
+                await asyncio.sleep(0)
+                raise ch.excs[idx]
+
+            async def mid_await(idx, style):
+                return await ch.m.call(PROC_BACKEND_NATIVE if ch.modes[idx] == "native" else PROC_BACKEND, idx)
+
+        def mid(idx, style):
+            return (mid_await if style == "await" else mid_plain)(idx, style)
+
+        self._reg(self.B, backend, PROC_BACKEND)
+        self._reg(self.B, backend_native, PROC_BACKEND_NATIVE)
+        self._reg(self.M, mid, PROC_MID)
+
+    def down(self, name):
+        rp = self.peers[name]
+        return bool(rp.ep.lost or rp.ep.close_requested or rp.session._session_id is None)
+
+    def escaped(self):
+        out = [repr(e)[:300] for e in self.world.escaped]
+        for rp in self.peers.values():
+            out += [repr(e)[:300] for e in rp.ep.escaped]
+        return out
+
+    def teardown(self):
+        if self.torn:
+            return
+        self.torn = True
+        for rp in self.peers.values():
+            try:
+                rp.teardown()
+            except Exception:
+                pass
+        self.F.close_world()
+
+    # -- conversation: every method returns the events the stub saw: [("backend-error"|"mid-error", idx, ERROR list)]
+    def issue(self, idx, mode, style, exc):
+        self.excs[idx] = exc
+        self.modes[idx] = mode
+        self.outcomes[idx] = Outcome(self.f.call(PROC_MID, idx, style))
+        calls = [x for x in self.F.recv() if x[0] == CALL]
+        assert len(calls) == 1 and calls[0][3] == PROC_MID, calls
+        self.front_req[idx] = calls[0][1]
+        inv = self.next_id()
+        self.mid_inv[inv] = idx
+        self.M.send([INVOCATION, inv, self.regs[PROC_MID], {}, [idx, style]])
+        return self.pump()
+
+    def fire(self, idx):
+        f = self.pending.pop(idx)
+        try:
+            raise self.excs[idx]
+        except BaseException:
+            fail = txaio.create_failure()
+        txaio.reject(f, fail)
+        return self.pump()
+
+    def pump(self):
+        """Route what MID and BACKEND sent; ERRORs are returned to the monitor, which forwards them."""
+        events = []
+        progress = True
+        while progress:
+            progress = False
+            for m in self.M.recv():
+                progress = True
+                if m[0] == CALL and m[3] in (PROC_BACKEND, PROC_BACKEND_NATIVE):
+                    idx = m[4][0]
+                    self.mid_req[idx] = m[1]
+                    inv = self.next_id()
+                    self.backend_inv[inv] = idx
+                    self.B.send([INVOCATION, inv, self.regs[m[3]], {}, [idx]])
+                elif m[0] == ERROR and len(m) >= 5 and m[2] in self.mid_inv:
+                    events.append(("mid-error", self.mid_inv[m[2]], m))
+                else:
+                    self.strays.append(("mid", m))
+            for m in self.B.recv():
+                progress = True
+                if m[0] == ERROR and len(m) >= 5 and m[2] in self.backend_inv:
+                    events.append(("backend-error", self.backend_inv[m[2]], m))
+                else:
+                    self.strays.append(("backend", m))
+            if events:
+                break
+        return events
+
+    def forward_to_mid(self, idx, m):
+        self.M.send([ERROR, CALL, self.mid_req[idx], {}, m[4]] + list(m[5:]))
+        return self.pump()
+
+    def forward_to_front(self, idx, m):
+        self.F.send([ERROR, CALL, self.front_req[idx], {}, m[4]] + list(m[5:]))
+        self.F.recv()
